@@ -6,11 +6,16 @@ Require Import SkV.Lib.Base SkV.Lib.ZRange SkV.C11.Model SkV.C11.Proofs.
 Import ListNotations.
 Open Scope Z_scope.
 
-(* window length per strategy, and exactly the documented rejections *)
+(* window length per strategy, and exactly the documented rejections: invalid sp / window_length
+   (where the strategy reads them), a seasonal-mean window - given, or by default the whole
+   training series - shorter than one season, a drift window - given or default - of a single
+   point, a window longer than the training series *)
 Theorem C11_window_length_resolution : forall s sp wlo n,
   (forall w, resolve_wl s sp wlo n = Ok w ->
-     w = documented_wl s sp wlo n /\ w <= n /\ ~ documented_reject s sp wlo) /\
-  (resolve_wl s sp wlo n = Err <-> (documented_reject s sp wlo \/ n < documented_wl s sp wlo n)).
+     w = documented_wl s sp wlo n /\ w <= n /\ valid_params s sp wlo /\
+     ~ documented_reject s sp wlo n) /\
+  (resolve_wl s sp wlo n = Err <->
+     (~ valid_params s sp wlo \/ documented_reject s sp wlo n \/ n < documented_wl s sp wlo n)).
 Proof. intros s sp wlo n. split; [intro w; exact (resolve_ok s sp wlo n w)|exact (resolve_err s sp wlo n)]. Qed.
 Print Assumptions C11_window_length_resolution.
 
@@ -55,14 +60,28 @@ Theorem C11_naive_seasonal_mean_aligned : forall ys sp wlo wl fh,
 Proof. exact naive_seasonal_mean_aligned. Qed.
 Print Assumptions C11_naive_seasonal_mean_aligned.
 
-(* the same on the window itself (what `_predict_last_window` sees): positions p of the window
-   congruent to wl-1+h *)
-Theorem C11_seasonal_mean_kernel_any_window_length : forall sp wl w hs,
-  1 < sp -> zlen w = wl -> sorted_lt hs -> all_pos hs ->
-  kernel SMean sp wl w hs =
-  Ok (map (fun h => nanmean (sel (fun p => congb sp p (wl - 1 + h)) 0 w)) hs).
+(* the same on the window itself (what `_predict_last_window` sees), WHATEVER its length - the
+   resolved window length, or less when the moving cutoff of an in-sample forecast is near the
+   start of the series: positions p of the window congruent to the target's position len-1+h *)
+Theorem C11_seasonal_mean_kernel_any_window_length : forall sp w hs,
+  1 < sp -> sorted_lt hs -> all_pos hs ->
+  kernel SMean sp w hs =
+  Ok (map (fun h => nanmean (sel (fun p => congb sp p (zlen w - 1 + h)) 0 w)) hs).
 Proof. exact kernel_seasonal_mean. Qed.
 Print Assumptions C11_seasonal_mean_kernel_any_window_length.
+
+(* seasonal last on a window of at most one season: step h reads the window position, among the sp
+   positions before the target, that is congruent to the target; if the window does not reach back
+   that far (negative position: `znth` is NaN there) no same-season observation exists -> NaN *)
+Theorem C11_seasonal_last_kernel_short_window : forall sp w hs,
+  1 < sp -> zlen w <= sp -> sorted_lt hs -> all_pos hs ->
+  kernel SLast sp w hs = Ok (map (fun h => znth w (zlen w - sp + (h - 1) mod sp)) hs) /\
+  forall i, i < 0 -> znth w i = None.
+Proof.
+  intros sp w hs H1 H2 H3 H4. split; [exact (kernel_seasonal_last sp w hs H1 H2 H3 H4)|].
+  exact (znth_neg w).
+Qed.
+Print Assumptions C11_seasonal_last_kernel_short_window.
 
 (* strategy "drift": the straight line through the first and last observation of the window,
    evaluated at the target position; a missing end point is an error *)
@@ -79,11 +98,18 @@ Theorem C11_line_through_end_points : forall x0 x1 a b, x0 <> x1 ->
 Proof. intros x0 x1 a b H. split; [exact (line_through_first x0 x1 a b)|exact (line_through_last x0 x1 a b H)]. Qed.
 Print Assumptions C11_line_through_end_points.
 
-Theorem C11_naive_drift_missing_end_point : forall sp wl w hs,
-  2 <= wl -> zlen w = wl -> all_nan w = false -> (znth w 0 = None \/ znth w (wl - 1) = None) ->
-  kernel SDrift sp wl w hs = Err.
+Theorem C11_naive_drift_missing_end_point : forall sp w hs,
+  2 <= zlen w -> all_nan w = false -> (znth w 0 = None \/ znth w (zlen w - 1) = None) ->
+  kernel SDrift sp w hs = Err.
 Proof. exact kernel_drift_missing_end. Qed.
 Print Assumptions C11_naive_drift_missing_end_point.
+
+(* no line through fewer than two points: every step is NaN (reachable only in-sample: fit rejects a
+   window or training series of a single point, see C11_window_length_resolution) *)
+Theorem C11_naive_drift_needs_two_points : forall sp w hs, zlen w <= 1 ->
+  kernel SDrift sp w hs = Ok (map (fun _ => None) hs).
+Proof. exact kernel_drift_one_point. Qed.
+Print Assumptions C11_naive_drift_needs_two_points.
 
 (* in-sample steps: the forecast for position q = n-1+r (r <= 0) is the one-step-ahead forecast made
    from the first q observations only (moving cutoff), with the window length resolved at fit;
@@ -103,6 +129,48 @@ Theorem C11_naive_mixed_horizon : forall s sp wl ys fh,
               end).
 Proof. exact predict_split. Qed.
 Print Assumptions C11_naive_mixed_horizon.
+
+(* in-sample values, INCLUDING the steps whose moving window is cut by the start of the series
+   (fixes 73893fc / ea15ad0 / fe97d94).  q = target position; the forecast is made from the
+   observations at positions lo .. q-1 with lo = max 0 (q - window length). *)
+
+(* last / seasonal last: the observation one season before the target; NaN while the training
+   series has no earlier observation of the target's season *)
+Theorem C11_in_sample_last : forall ys sp wlo r, 1 <= sp <= zlen ys -> r <= 0 ->
+  let q := zlen ys - 1 + r in 0 <= q ->
+  naive_predict SLast sp wlo ys [r] = Ok [if q <? sp then None else znth ys (q - sp)].
+Proof. intros ys sp wlo r Hsp Hr q Hq. exact (naive_in_sample_last ys sp wlo r q Hsp Hr eq_refl Hq). Qed.
+Print Assumptions C11_in_sample_last.
+
+(* mean / seasonal mean: the mean of the non-missing observations at positions lo .. q-1 congruent to
+   the target (every position for sp = 1); NaN if there is none *)
+Theorem C11_in_sample_mean : forall ys sp wlo wl r,
+  resolve_wl SMean sp wlo (zlen ys) = Ok wl -> r <= 0 ->
+  let q := zlen ys - 1 + r in let lo := Z.max 0 (q - wl) in 0 <= q ->
+  naive_predict SMean sp wlo ys [r] =
+  Ok [nanmean (sel (fun p => congb sp p q) lo (zslice ys lo q))].
+Proof.
+  intros ys sp wlo wl r Hres Hr q lo Hq.
+  exact (naive_in_sample_mean ys sp wlo wl r q lo Hres Hr eq_refl Hq eq_refl).
+Qed.
+Print Assumptions C11_in_sample_mean.
+
+(* drift: the line through the first and last available point, evaluated at the target; NaN when
+   fewer than two points are available *)
+Theorem C11_in_sample_drift : forall ys sp wlo wl r,
+  resolve_wl SDrift sp wlo (zlen ys) = Ok wl -> r <= 0 ->
+  let q := zlen ys - 1 + r in let lo := Z.max 0 (q - wl) in 0 <= q ->
+  (q - lo <= 1 -> naive_predict SDrift sp wlo ys [r] = Ok [None]) /\
+  (forall a b, 2 <= q - lo -> znth ys lo = Some a -> znth ys (q - 1) = Some b ->
+     exists v, naive_predict SDrift sp wlo ys [r] = Ok [Some v] /\
+               (v == line lo (q - 1) a b q)%Q).
+Proof.
+  intros ys sp wlo wl r Hres Hr q lo Hq.
+  destruct (naive_in_sample_drift ys sp wlo wl r q lo Hres Hr eq_refl Hq eq_refl) as [H1 H2].
+  split; [exact H1|]. intros a b Hab Ha Hb. destruct (H2 a b Hab Ha Hb) as [Hv Hl].
+  exists (drift_value (q - lo) a b 1). exact (conj Hv Hl).
+Qed.
+Print Assumptions C11_in_sample_drift.
 
 (* polynomial trend: coefficients satisfying the normal equations minimise the squared error *)
 Theorem C11_normal_equations_minimise : forall k0 b pts, normal_ok k0 b pts = true ->
@@ -163,5 +231,11 @@ Example C11_nonvacuous :
   resolve_wl SMean 3 (Some 5) (zlen ys) = Ok 5 /\ sorted_lt [1; 2; 5; 7] /\
   naive_predict SMean 3 (Some 5) ys [1; 2; 5; 7]
     = Ok [Some 16%Q; Some (36 # 2)%Q; Some (36 # 2)%Q; Some 16%Q] /\
+  (* in-sample steps whose window is cut by the start of the series: targets 0..3 *)
+  naive_predict SMean 3 (Some 5) ys [-6; -5; -4; -3] = Ok [None; None; None; Some (1 # 1)%Q] /\
+  naive_predict SLast 3 None ys [-5; -3; -2] = Ok [None; Some 1%Q; Some 2%Q] /\
+  naive_predict SDrift 1 None [Some 1; Some 2; Some 4; Some 8]%Q [-2; -1; 0]
+    = Ok [None; Some (3 # 1)%Q; Some (11 # 2)%Q] /\
+  resolve_wl SDrift 1 None 1 = Err /\ resolve_wl SMean 4 None 2 = Err /\
   poly_fit 2 true [Some 1; Some 2; Some 4; Some 8]%Q = Ok [(21 # 20)%Q; (1 # 20)%Q; (3 # 4)%Q].
 Proof. vm_compute. repeat split; reflexivity. Qed.
